@@ -3,7 +3,7 @@ import json
 import os
 import vlib
 
-PROPS = ['Rangers.Props.C16', 'Rangers.Props.C16B', 'Rangers.Props.C16Qn', 'Rangers.Props.C16Gen', 'Rangers.Props.C16Curve', 'Rangers.Props.C16Window', 'Rangers.Props.C16Msg', 'Rangers.Props.C16Worker']
+PROPS = ['Rangers.Props.C16', 'Rangers.Props.C16B', 'Rangers.Props.C16Qn', 'Rangers.Props.C16Gen', 'Rangers.Props.C16Curve', 'Rangers.Props.C16Window', 'Rangers.Props.C16Msg', 'Rangers.Props.C16Worker', 'Rangers.Props.C16Prime']
 DRIVERS = ['C16']
 META = dict(
     level='proof',
